@@ -7,7 +7,7 @@ from concurrent.futures import ProcessPoolExecutor
 from lib import common, play, stories
 
 LEVEL = "proof"
-THEOREM_MODULES = ["Proofs.C02", "Proofs.C02State"]
+THEOREM_MODULES = ["Proofs.C02", "Proofs.C02State", "Proofs.Tables"]
 REQUIRED_THEOREMS = [
     "Ink.C02.cmd_roundtrip", "Ink.C02.native_name_roundtrip", "Ink.C02.native_not_cmd", "Ink.C02.native_roundtrip",
     "Ink.C02.cmd_obj_roundtrip", "Ink.C02.simple_obj_roundtrip", "Ink.C02.string_roundtrip",
@@ -18,6 +18,8 @@ REQUIRED_THEOREMS = [
     "Ink.C02.loadState_saveState_exact", "Ink.C02.loadState_saveState_self", "Ink.C02.create_saveable",
     "Ink.C02.saveableB_sound", "Ink.C02.exRoundTrip", "Ink.C02.nonfinite_float_clamped",
 ]
+from lib.tables_thms import TABLE_THEOREMS  # noqa: E402
+REQUIRED_THEOREMS = REQUIRED_THEOREMS + TABLE_THEOREMS
 RULE = ("a case = one story x one save point along a random history (after a line, at a choice point, at the end, "
         "inside tunnels / functions / threads, in a named flow, with lists and random seeds) x one random "
         "continuation played on the original and on a fresh story that loaded the save; non-trivial when the save "
